@@ -27,12 +27,26 @@ def run_avals(ctx, name, cfg):
     state2, ts2 = jax.eval_shape(env.step, state, a)
     from jxv import core
     ctx.problems.append({"title": f"{name}@{cfg}", "engine": "jax.eval_shape", "targets": [core.target_meta(type(env).reset), core.target_meta(type(env).step)]})
+    real = {}
+
+    def native(tag, what, nm):
+        """an aval mismatch fails for EVERY input: execute the real reset/step once and report what it really returned for the failing leaf"""
+        try:
+            if not real:
+                s0, t0 = env.reset(key)
+                real["reset"], real["step"] = t0, env.step(s0, a)[1]
+            sp = env.observation_spec if what == "observation" else getattr(env, what + "_spec")
+            bad = [(n2, d2) for n2, ok2, d2 in K.spec_avals(sp, getattr(real[tag], what), what) if n2 == nm and not ok2]
+            return {"input": "reset(PRNGKey(0))" if tag == "reset" else "step(reset(PRNGKey(0)).state, action_spec.generate_value())", "native": bad[0][1]} if bad else None
+        except Exception as ex:
+            return None
+
     for tag, t in (("reset", ts), ("step", ts2)):
         for nm, ok, det in K.spec_avals(env.observation_spec, t.observation, "observation"):
-            ctx.structural(f"{name}.{tag}@{cfg}/C01.{nm}", ok, "jax.eval_shape vs spec", detail=det, witness=det if not ok else None)
+            ctx.structural(f"{name}.{tag}@{cfg}/C01.{nm}", ok, "jax.eval_shape vs spec", detail=det, witness=None if ok else native(tag, "observation", nm))
         for fld, spec in (("reward", env.reward_spec), ("discount", env.discount_spec)):
             for nm, ok, det in K.spec_avals(spec, getattr(t, fld), fld):
-                ctx.structural(f"{name}.{tag}@{cfg}/C01.{nm}", ok, "jax.eval_shape vs spec", detail=det, witness=det if not ok else None)
+                ctx.structural(f"{name}.{tag}@{cfg}/C01.{nm}", ok, "jax.eval_shape vs spec", detail=det, witness=None if ok else native(tag, fld, nm))
     # generate_value is a member of the action spec and accepted by step
     try:
         env.action_spec.validate(a)
